@@ -119,6 +119,8 @@ def run(ck, facts, tier):
             else:
                 ck.violation(R, inst, b.where(s["ln"]), "panic-capable site on the path from program / goal text to the lowered program with no audit entry: "
                              "a malformed input reaching it crashes instead of returning an error")
+    precondition_calls(ck, facts, cg, reach)
+    R = "C24.PANIC-FREE"
     ck.floor(R, "functions-in-region", n_fn, 150)
     ck.floor(R, "audited-sites", len(seen_audit), 15)
     # parse_program / parse_goal map every parser error into Err
@@ -130,3 +132,84 @@ def run(ck, facts, tier):
                 ck.ok(R, "%s:maps-parser-errors" % fn)
             else:
                 ck.violation(R, "%s:maps-parser-errors" % fn, b.where(), "parser errors must be mapped into the returned Err")
+
+
+PRECOND_AUDIT = {
+    "chalk_ir::GenericArg::assert_ty_ref": "TraitRef::lower applies it to args[0]: established structurally by C24.SELF-ARG-IS-TYPE (every ast::TraitRef the "
+                                           "parser builds starts its args with GenericArg::Ty, whose lowering kind-checks the name)",
+    "chalk_ir::QuantifiedWhereClauses::from_iter": "unwraps an infallible conversion (Result<_, ()> built from Ok items only)",
+    "chalk_ir::Substitution::from_iter": "unwraps an infallible conversion (Result<_, ()> built from Ok items only)",
+    "chalk_ir::VariableKinds::from_iter": "unwraps an infallible conversion (Result<_, ()> built from Ok items only)",
+}
+
+
+def precondition_calls(ck, facts, cg, reach):
+    from core import calls
+    R = "C24.PRECONDITION-CALLS"
+    ck.rule(R, "K6 + K5: a call from the parse / lower region into a chalk-ir / chalk-solve function that itself contains a panic site "
+               "(an assert_*_ref, an unwrap) is in the audit table with the argument that establishes its precondition; the one "
+               "precondition that rests on the *parser* is checked structurally (C24.SELF-ARG-IS-TYPE)")
+    seen = {}
+    for k in sorted(reach):
+        b = cg.bodies.get(k)
+        if b is None or b.thir is None:
+            continue
+        fl = b.file or ""
+        if not (fl.startswith("chalk-parse/src") or fl.startswith("chalk-integration/src/lowering") or fl.startswith("chalk-integration/src/error")):
+            continue
+        for c in calls(b.thir):
+            for name in (c.get("res"), c.get("fn")):
+                if not name:
+                    continue
+                if name.startswith(("chalk_ir::", "chalk_solve::", "<chalk_ir", "<chalk_solve")):
+                    fb = facts.body(name)
+                    if fb is not None and panic_sites(fb):
+                        seen.setdefault(name, []).append((b, c.get("ln")))
+                    break
+    for name, sites in sorted(seen.items()):
+        inst = "%s" % short(name)
+        if name in PRECOND_AUDIT:
+            ck.ok(R, inst, "%d call site(s); audited: %s" % (len(sites), PRECOND_AUDIT[name][:100]))
+        else:
+            b, ln = sites[0]
+            ck.violation(R, inst, b.where(ln), "lowering calls `%s`, which panics when its precondition fails, and no audit entry says why user "
+                         "input can never violate it" % name)
+    ck.floor(R, "precondition-callees", len(seen), 4)
+
+    R = "C24.SELF-ARG-IS-TYPE"
+    ck.rule(R, "K5 (parser / lowering contract): TraitRef::lower treats args[0] as the self *type* (assert_ty_ref panics on a lifetime or "
+               "const), so every construction of ast::TraitRef in chalk-parse - the compiled grammar actions - starts `args` with a "
+               "GenericArg::Ty(..) value (whose lowering reports a wrong-kind name as an error); GenericArg::Id / a conversion helper in that "
+               "position lets `impl<const N> Foo for N {}` reach the assertion")
+    n = 0
+    for k, b in sorted(facts.bodies("chalk_parse").items()):
+        if b.thir is None or "{" in k.split("::")[-1] or " as core::clone::Clone>" in k:
+            continue        # (a derived Clone copies an existing TraitRef field by field)
+        th = facts.thir(k)
+        for adt in walk(th, skip_tracing=False):
+            if not (adt.get("k") == "adt" and adt.get("adt") == "chalk_parse::ast::TraitRef"):
+                continue
+            n += 1
+            inst = "%s:TraitRef.args[0]" % k.split("::")[-1]
+            args = dict((f[0], f[1]) for f in adt.get("fields", [])).get("args")
+            first = None
+            srcs = [args]
+            from core import var_name, peel
+            vn = var_name(args) if args is not None else None
+            if vn:
+                srcs = [st["init"] for st in walk(th, skip_tracing=False) if st.get("k") == "let" and st.get("init") is not None
+                        and st["pat"].get("k") == "bind" and st["pat"].get("n") == vn]
+            for src in srcs:
+                for x in walk(src, skip_tracing=False):
+                    if x.get("k") == "array" and x.get("es"):
+                        first = peel(x["es"][0])
+                        break
+                if first is not None:
+                    break
+            if first is not None and first.get("k") == "adt" and first.get("adt") == "chalk_parse::ast::GenericArg" and first.get("v") == "Ty":
+                ck.ok(R, inst, "GenericArg::Ty(..)")
+            else:
+                what = "nothing the checker can read" if first is None else "%s %s" % (first.get("k"), first.get("v") or first.get("fn") or "")
+                ck.violation(R, inst, b.where(adt.get("ln")), "the first argument of this trait reference is built as %s, not GenericArg::Ty(..): "
+                             "a const or lifetime name in self position reaches assert_ty_ref in TraitRef::lower" % what)
+    ck.floor(R, "TraitRef-constructions", n, 4)
